@@ -140,7 +140,7 @@ func c16OpString(a *An, opStr *ssa.Function) {
 	lastKey := ""
 	for _, v := range w.Visits {
 		call, ok := v.Instr.(*ssa.Call)
-		if !ok || v.Ctx.Parent != nil {
+		if !ok {
 			continue
 		}
 		cal := call.Call.StaticCallee()
@@ -155,7 +155,7 @@ func c16OpString(a *An, opStr *ssa.Function) {
 			builder = call.Call.Args[0]
 		}
 		pc := piece{v: v}
-		arg := call.Call.Args[1]
+		arg, _ := v.Ctx.resolve(call.Call.Args[1]) // a local closure `add(op, name)` passes the constants as arguments
 		switch fn {
 		case "(*strings.Builder).WriteString":
 			if k, isK := arg.(*ssa.Const); isK && k.Value != nil && k.Value.Kind() == constant.String {
@@ -248,7 +248,7 @@ func c16OpString(a *An, opStr *ssa.Function) {
 	if len(rows) == 0 && len(probs) == 0 {
 		for _, v := range w.Visits {
 			call, ok := v.Instr.(*ssa.Call)
-			if !ok || v.Ctx.Parent != nil {
+			if !ok {
 				continue
 			}
 			args, isApp := isBuiltinCall(call, "append")
@@ -256,6 +256,7 @@ func c16OpString(a *An, opStr *ssa.Function) {
 				continue
 			}
 			elem := ""
+			var elemV ssa.Value
 			if sl, okS := args[1].(*ssa.Slice); okS {
 				if al, okA := sl.X.(*ssa.Alloc); okA {
 					if refs := al.Referrers(); refs != nil {
@@ -265,11 +266,33 @@ func c16OpString(a *An, opStr *ssa.Function) {
 									for _, u := range *rr {
 										if st, okSt := u.(*ssa.Store); okSt && st.Addr == ssa.Value(ia) {
 											elem = v.Ctx.path(st.Val)
+											elemV = st.Val
 										}
 									}
 								}
 							}
 						}
+					}
+				}
+			}
+			// a constant name appended under one single-bit test of the receiver (possibly inside a local closure)
+			if elemV != nil {
+				if rv, _ := v.Ctx.resolve(elemV); rv != nil {
+					if k, isK := rv.(*ssa.Const); isK && k.Value != nil && k.Value.Kind() == constant.String {
+						tok := "|" + constant.StringVal(k.Value)
+						if len(v.Cond) != 1 || len(v.Cond[0]) != 1 {
+							probs = append(probs, sprintf("name %q is appended under %s (expected one single-bit test of the receiver)", tok[1:], stripIDs(v.Cond.String())))
+							continue
+						}
+						for _, l := range v.Cond[0] {
+							if l.A.Kind != AkBit || l.Neg || l.A.Subj != "recv" {
+								probs = append(probs, sprintf("name %q is appended under %s", tok[1:], stripIDs(l.String())))
+								continue
+							}
+							rows = append(rows, row2{l.A.Bits, tok, a.P.instrPos(call)})
+						}
+						joined = true
+						continue
 					}
 				}
 			}
